@@ -118,7 +118,7 @@ Qed.
 Lemma start_check_spec buf bnd eof r :
   start_check false false buf bnd eof = Some r ->
   (r = Ready IEnd /\ (starts (delim bnd) buf = true \/ starts (bare bnd) buf = true)) \/
-  (r = if eof then Ready (IErr EIncomplete) else Pending).
+  (r = (if eof then Ready (IErr EIncomplete) else Pending) /\ (length buf < length bnd + 4)%nat).
 Proof.
   unfold start_check.
   destruct ((4 <=? length buf)%nat && (nth 0 buf 0 =? CR)) eqn:G; [|discriminate].
@@ -130,7 +130,7 @@ Proof.
   - apply andb_true_iff in B4 as [B4a B4b]. apply bytes_eqb_eq in B4a, B4b.
     cbn [firstn skipn] in B4a, B4b. injection B4a as ->. injection B4b as -> ->.
     destruct (Nat.ltb_spec (length (CR :: LF :: DASH :: DASH :: t)) (length bnd + 4)) as [Hlt|Hge].
-    + intro H. injection H as <-. right. reflexivity.
+    + intro H. injection H as <-. right. split; [reflexivity|lia].
     + cbn [skipn]. destruct (bytes_eqb (firstn (length bnd) t) bnd) eqn:M; [|discriminate].
       intro H. injection H as <-. left. split; [reflexivity|]. left.
       apply bytes_eqb_eq in M. apply starts_true. exists (skipn (length bnd) t).
@@ -138,7 +138,7 @@ Proof.
   - destruct (bytes_eqb (firstn 2 (skipn 1 (CR :: x1 :: x2 :: x3 :: t))) [DASH; DASH]) eqn:B3; [|discriminate].
     apply bytes_eqb_eq in B3. cbn [firstn skipn] in B3. injection B3 as -> ->.
     destruct (Nat.ltb_spec (length (CR :: DASH :: DASH :: x3 :: t)) (length bnd + 3)) as [Hlt|Hge].
-    + intro H. injection H as <-. right. reflexivity.
+    + intro H. injection H as <-. right. split; [reflexivity|lia].
     + cbn [skipn]. destruct (bytes_eqb (firstn (length bnd) (x3 :: t)) bnd) eqn:M; [|discriminate].
       intro H. injection H as <-. left. split; [reflexivity|]. right.
       apply bytes_eqb_eq in M. apply starts_true. exists (skipn (length bnd) (x3 :: t)).
@@ -162,7 +162,7 @@ Proof.
   destruct (Nat.ltb_spec (length (CR :: LF :: DASH :: DASH :: t)) (length bnd + 4)) as [Hlt|Hge]; [reflexivity|].
   assert (M : firstn (length bnd) t = bnd).
   { apply (firstn_prefix t bnd s rest); [symmetry; exact E|cbn [length] in *; lia]. }
-  rewrite M, bytes_eqb_refl. reflexivity.
+  cbn [skipn]. rewrite M, bytes_eqb_refl. reflexivity.
 Qed.
 
 (* ONE POLL of the repaired scanner.  The buffer holds what has arrived of the remaining
@@ -182,9 +182,9 @@ Lemma read_stream_step : forall (p : pb) (bnd c rest : bytes),
 Proof.
   intros p bnd c rest Hpre Hclean. unfold read_stream, read_stream_gen.
   destruct (Nat.eqb_spec (length (p_buf p)) 0) as [L0|L0].
-  { destruct (p_eof p); auto. }
+  { destruct (p_eof p); cbn; auto. }
   destruct (start_check false false (p_buf p) bnd (p_eof p)) as [r|] eqn:SC.
-  - apply start_check_spec in SC as [(-> & Hd)|->].
+  - apply start_check_spec in SC. destruct SC as [ [Hr Hd] | [Hr _] ]; subst r.
     + (* a delimiter or a bare look-alike at the start of the buffer: c must be empty *)
       destruct c as [|c0 c].
       * split; [reflexivity|]. split; [reflexivity|].
@@ -203,7 +203,7 @@ Proof.
         -- rewrite app_length. lia.
         -- congruence.
         -- rewrite app_length. unfold bare, delim. cbn [length]. lia.
-    + destruct (p_eof p); auto.
+    + destruct (p_eof p); cbn; auto.
   - (* the scan loop *)
     destruct Hpre as (s' & Hpre).
     destruct (Nat.le_gt_cases (length (p_buf p)) (length c)) as [Lc|Lc].
@@ -223,7 +223,7 @@ Proof.
         split; [|split; [cbn; symmetry; apply firstn_skipn|reflexivity]].
         destruct Hc as (c' & ->). exists (skipn k (p_buf p) ++ c').
         rewrite app_assoc, firstn_skipn. reflexivity.
-      * apply scan_stuck in S as (t & St & Sl). destruct (p_eof p); auto.
+      * apply scan_stuck in S as (t & St & Sl). destruct (p_eof p); cbn; auto.
     + (* the delimiter has (partly) arrived: buf = c ++ l2, l2 a non-empty prefix of delim ++ rest *)
       assert (Hb : p_buf p = c ++ skipn (length c) (p_buf p)).
       { assert (F : firstn (length c) (p_buf p) = c).
@@ -242,7 +242,7 @@ Proof.
            rewrite Hb, Et. cbn [scan_from]. change (CR =? CR) with true. cbn iota.
            replace ((length (CR :: t) <? 4)%nat) with true
              by (symmetry; apply Nat.ltb_lt; rewrite <- Et, <- Hb; exact L4).
-           cbn. rewrite <- Et, <- Hb. destruct (p_eof p); auto.
+           cbn. rewrite <- Et, <- Hb. destruct (p_eof p); cbn; auto.
       * pose proof (scan_le (c0 :: c) l2 0 (delim_prefix_stop bnd rest l2 Nl2 Hl2) ltac:(cbn; lia)) as SL.
         rewrite <- Hb in SL.
         destruct (scan_from 0 (p_buf p)) as [|k|] eqn:S; [contradiction| |].
@@ -253,5 +253,121 @@ Proof.
            exists (skipn k (c0 :: c)). rewrite Hb, firstn_app.
            replace (k - length (c0 :: c))%nat with O by lia. cbn [firstn]. rewrite app_nil_r.
            symmetry. apply firstn_skipn.
-        -- destruct (p_eof p); auto.
+        -- destruct (p_eof p); cbn; auto.
+Qed.
+
+(* ---- any arrival / poll schedule ---- *)
+Inductive act := Arrive (b : bytes) | PollScan | SetEof.
+
+(* emitted bytes, how it ended (None: schedule exhausted), final buffer *)
+Fixpoint scan_exec (bnd : bytes) (acts : list act) (p : pb) (out : bytes) : bytes * option item * pb :=
+  match acts with
+  | [] => (out, None, p)
+  | Arrive b :: r => scan_exec bnd r (set_buf p (p_buf p ++ b)) out
+  | SetEof :: r => scan_exec bnd r (set_eof p true) out
+  | PollScan :: r =>
+      match read_stream p bnd with
+      | (Ready (IData ch), p') => scan_exec bnd r p' (out ++ ch)
+      | (Ready IEnd, p') => (out, Some IEnd, p')
+      | (Ready (IErr e), p') => (out, Some (IErr e), p')
+      | (Pending, p') => scan_exec bnd r p' out
+      end
+  end.
+
+Fixpoint arrived (acts : list act) : bytes :=
+  match acts with
+  | [] => []
+  | Arrive b :: r => b ++ arrived r
+  | _ :: r => arrived r
+  end.
+
+Lemma scan_exec_exact : forall bnd acts p out c rest,
+  is_prefix (p_buf p ++ arrived acts) (c ++ delim bnd ++ rest) -> clean bnd c ->
+  exists e, fst (fst (scan_exec bnd acts p out)) = out ++ e /\ is_prefix e c /\
+    (snd (fst (scan_exec bnd acts p out)) = Some IEnd ->
+       e = c /\ is_prefix (delim bnd) (p_buf (snd (scan_exec bnd acts p out)))) /\
+    (forall x, snd (fst (scan_exec bnd acts p out)) = Some (IErr x) ->
+       x = EIncomplete /\ p_eof (snd (scan_exec bnd acts p out)) = true).
+Proof.
+  intros bnd acts. induction acts as [|a acts IH]; intros p out c rest Hpre Hcl.
+  - exists []. cbn. rewrite app_nil_r. repeat split; try discriminate. exists c; reflexivity.
+  - destruct a as [b| |]; cbn [scan_exec arrived] in *.
+    + apply (IH (set_buf p (p_buf p ++ b)) out c rest); [|exact Hcl].
+      cbn. rewrite <- app_assoc. exact Hpre.
+    + assert (Hp : is_prefix (p_buf p) (c ++ delim bnd ++ rest)).
+      { destruct Hpre as (s & E). exists (arrived acts ++ s). rewrite E, app_assoc. reflexivity. }
+      pose proof (read_stream_step p bnd c rest Hp Hcl) as St.
+      destruct (read_stream p bnd) as [[[| ch | e]|] p'].
+      * destruct St as (-> & -> & Hd). exists []. cbn. rewrite app_nil_r.
+        repeat split; try discriminate; try assumption. exists []; reflexivity.
+      * destruct St as (Nch & (c' & ->) & Hb & ->).
+        destruct (IH (set_buf p (p_buf (set_buf p (p_buf p')))) (out ++ ch) c' rest) as (e' & E1 & E2 & E3 & E4).
+        { cbn. destruct Hpre as (s & E). exists s. rewrite Hb in E. rewrite <- !app_assoc in E.
+          apply app_inv_head in E. rewrite <- app_assoc. exact E. }
+        { exact (clean_suffix _ _ _ Hcl). }
+        cbn [set_buf p_buf] in *.
+        exists (ch ++ e'). rewrite E1, app_assoc. split; [reflexivity|].
+        split; [destruct E2 as (s & ->); exists s; rewrite app_assoc; reflexivity|].
+        split; [intro H; destruct (E3 H) as [-> H']; split; [reflexivity|exact H']|exact E4].
+      * destruct St as (-> & Heof & ->). exists []. cbn. rewrite app_nil_r.
+        repeat split; try discriminate; try congruence. exists c; reflexivity.
+      * destruct St as (_ & ->). apply (IH p out c rest Hpre Hcl).
+    + apply (IH (set_eof p true) out c rest); [exact Hpre|exact Hcl].
+Qed.
+
+(* ---- progress: once the whole delimiter is buffered a poll never waits ---- *)
+Lemma read_stream_waits_short p bnd r p' :
+  read_stream p bnd = (r, p') -> (r = Pending \/ exists e, r = Ready (IErr e)) ->
+  (length (p_buf p) < length bnd + 4)%nat.
+Proof.
+  unfold read_stream, read_stream_gen.
+  destruct (Nat.eqb_spec (length (p_buf p)) 0) as [L0|L0]; [lia|].
+  destruct (start_check false false (p_buf p) bnd (p_eof p)) as [r0|] eqn:SC.
+  - apply start_check_spec in SC as [[-> _]|[_ L]]; [|lia].
+    intro H. injection H as <- <-. intros [H|(e & H)]; discriminate.
+  - destruct (scan_from 0 (p_buf p)) as [|k|] eqn:S; intro H; injection H as <- <-.
+    + intros [H|(e & H)]; discriminate.
+    + intros [H|(e & H)]; discriminate.
+    + intros _. apply scan_stuck in S as (t & _ & L). lia.
+Qed.
+
+(* with the content and its whole delimiter in the buffer, at most |c|+1 polls deliver exactly
+   c and then report the end of the field, leaving the delimiter at the start of the buffer *)
+Lemma scan_complete bnd : forall n c p out tail,
+  p_buf p = c ++ delim bnd ++ tail -> clean bnd c -> (length c < n)%nat ->
+  exists p', scan_exec bnd (repeat PollScan n) p out = (out ++ c, Some IEnd, p') /\
+             p_buf p' = delim bnd ++ tail.
+Proof.
+  induction n as [|n IH]; intros c p out tail Hb Hcl Hn; [lia|].
+  cbn [repeat scan_exec].
+  assert (Hp : is_prefix (p_buf p) (c ++ delim bnd ++ tail)) by (exists []; rewrite app_nil_r; auto).
+  pose proof (read_stream_step p bnd c tail Hp Hcl) as St.
+  destruct (read_stream p bnd) as [r p1] eqn:RS.
+  assert (NW : ~ (r = Pending \/ exists e, r = Ready (IErr e))).
+  { intro W. pose proof (read_stream_waits_short _ _ _ _ RS W) as L.
+    rewrite Hb, !app_length in L. unfold delim in L. cbn [length] in L. lia. }
+  destruct r as [[| ch | e]|].
+  - destruct St as (-> & -> & _). exists p. rewrite app_nil_r. split; [reflexivity|exact Hb].
+  - destruct St as (Nch & (c' & ->) & Hb1 & ->).
+    destruct (IH c' (set_buf p (p_buf p1)) (out ++ ch) tail) as (p' & E & B).
+    + cbn. rewrite Hb, <- app_assoc in Hb1. apply app_inv_head in Hb1. symmetry. exact Hb1.
+    + exact (clean_suffix _ _ _ Hcl).
+    + rewrite app_length in Hn. destruct ch; [congruence|cbn in Hn; lia].
+    + exists p'. rewrite E, <- app_assoc. split; [reflexivity|exact B].
+  - exfalso. apply NW. right. eexists; reflexivity.
+  - exfalso. apply NW. left. reflexivity.
+Qed.
+
+(* [clean] is decidable (the Rust classifier `content_valid` / `in_bare_class` of the harness) *)
+Definition cleanb (b c : bytes) : bool :=
+  forallb (fun k => negb (starts (delim b) (skipn k c ++ delim b)) &&
+                    negb (starts (bare b) (skipn k c ++ delim b))) (seq 0 (length c)).
+
+Lemma cleanb_clean b c : cleanb b c = true -> clean b c.
+Proof.
+  unfold cleanb, clean. intros H s1 s2 E N. rewrite forallb_forall in H.
+  specialize (H (length s1)). rewrite E, skipn_app, skipn_all, Nat.sub_diag in H. cbn in H.
+  assert (I : In (length s1) (seq 0 (length (s1 ++ s2)))).
+  { apply in_seq. rewrite app_length. destruct s2; [congruence|cbn; lia]. }
+  apply H in I. apply andb_true_iff in I as [A B]. apply negb_true_iff in A, B. auto.
 Qed.
